@@ -1741,8 +1741,17 @@ def _const_sint(v):
 
 def _flag_call(cls, val):
     """enum.IntFlag(value) with KEEP boundary: a declared member when the value equals one, else a pseudo-member."""
-    ENGINE.models_used.add("IntFlag.__call__ (declared member or KEEP pseudo-member)")
+    ENGINE.models_used.add("IntFlag.__call__ (declared member or KEEP pseudo-member; negative values folded as enum.Flag._missing_ does)")
     val = payload(val)
+    if _real_type(val) is SInt and val.lo < 0 and ENGINE.decide(val.t < 0):
+        # enum.Flag._missing_ (CPython 3.12, boundary KEEP) maps negative values to non-negative ones
+        all_bits, flag_mask = cls._all_bits_, cls._flag_mask_
+        in_range = And(val >= ~all_bits, (val & (all_bits ^ flag_mask)) == 0)
+        if decide_bool(in_range):
+            val = all_bits + 1 + val
+        else:
+            p2 = _binop("lshift", 1, val.bit_length())
+            val = Ite(p2 > all_bits + 1, p2, all_bits + 1) + val
     for m in cls.__members__.values():
         if val == m._value_:
             return m
